@@ -416,6 +416,18 @@ func buildRes(kind string, n *Node) (a *anypb.Any, err error) {
 		return &anypb.Any{TypeUrl: "type.googleapis.com/envoy.config.core.v3.Node", Value: foreignPayload(n)}, nil
 	case "RUnparsable":
 		return &anypb.Any{TypeUrl: url, Value: badBytes}, nil
+	case "RWrongUrlOf":
+		// generator-only: the bytes of a well-formed resource of this kind under the type url of ANOTHER xDS kind
+		// (e.g. exactly the bytes a previous, accepted response carried); the summariser reads it back as RWrongUrl
+		inner, err := buildRes(kind, &Node{Ctor: "RGood", Args: n.Args})
+		if err != nil {
+			return nil, err
+		}
+		other := typeURLs["cds"]
+		if kind == "cds" {
+			other = typeURLs["eds"]
+		}
+		return &anypb.Any{TypeUrl: other, Value: inner.Value}, nil
 	case "RGood":
 		var m proto.Message
 		switch kind {
